@@ -1378,6 +1378,130 @@ theorem modUpExact_exact (Q P : List Nat) (levelP : Nat) (hlP : levelP < P.lengt
       rw [c]
       exact modUp_off_by_one_lo qs _ x (P.getD j 0) _ hcop hpos' hx hy hp0 hv
 
+/-! ## 10. Unconditional ranges (whatever the IEEE index) — used for the NTT-domain variant -/
+
+theorem vtFold_size (p vv : Nat) :
+    ∀ (L : List Nat) (arr : Array Nat) (last : Nat),
+      (L.foldl (fun (st : Array Nat × Nat) _ => ((st.1.push (CRed (u64add st.2 vv) p)), CRed (u64add st.2 vv) p))
+          (arr, last)).1.size = arr.size + L.length
+  | [], arr, last => by simp
+  | _ :: L, arr, last => by
+    rw [List.foldl_cons, vtFold_size p vv L]
+    simp only [Array.size_push, List.length_cons]; omega
+
+/-- out-of-range reads of `vtimesqmodp[j]` (Go: index panic; twin: default `0`) -/
+theorem muc_vtimesqmodp_ge (Q P : List Nat) (j v : Nat) (hj : j < P.length) (hv : Q.length < v) :
+    ((genModUpConstants Q P).vtimesqmodp[j]!)[v]! = 0 := by
+  unfold genModUpConstants
+  simp only []
+  rw [getElem!_map_toArray _ _ j hj]
+  have hsz := vtFold_size (P.getD j 0)
+    (u64sub (P.getD j 0) (Q.foldl (fun acc qi => MRed acc (MForm qi (P.getD j 0) (brc (P.getD j 0))) (P.getD j 0)
+      (GenMRedConstant (P.getD j 0))) 1)) (List.range Q.length) #[0] 0
+  rw [List.length_range] at hsz
+  exact getElem!_neg _ _ (by rw [hsz]; simp; omega)
+
+/-- **`multSum`, range for EVERY index `v`** (valid or not): `< (k+2)·p` -/
+theorem multSum_lt (Q P : List Nat) (hC : Chain Q) (hne : Q ≠ []) (j : Nat) (hj : j < P.length)
+    (hp : (P.getD j 0).Prime) (hodd : P.getD j 0 % 2 = 1) (k : Nat) (hk : Q.sum ≤ k * W)
+    (hkp : (k + 2) * P.getD j 0 ≤ W) (ys : List Nat) (hlen : ys.length = Q.length)
+    (hys : ∀ i, i < Q.length → ys.getD i 0 < Q.getD i 0) (v : Nat) :
+    multSum ys v (P.getD j 0) (GenMRedConstant (P.getD j 0)) (genModUpConstants Q P).vtimesqmodp[j]!
+        (genModUpConstants Q P).qoverqimodp[j]! < (k + 2) * P.getD j 0 := by
+  by_cases hv : v ≤ Q.length
+  · exact (multSum_hps Q P hC hne j hj hp hodd k hk hkp ys hlen hys v hv).2
+  · -- the table read returns 0: same value as with index 0
+    have h0 := (multSum_hps Q P hC hne j hj hp hodd k hk hkp ys hlen hys 0 (by omega)).2
+    have e0 : ((genModUpConstants Q P).vtimesqmodp[j]!)[v]! = ((genModUpConstants Q P).vtimesqmodp[j]!)[0]! := by
+      have hall : ∀ q ∈ Q, q < W := fun q hq => by have := hC.small q hq; unfold W; omega
+      have h2p : 2 * P.getD j 0 ≤ W := by
+        have : 2 * P.getD j 0 ≤ (k + 2) * P.getD j 0 := Nat.mul_le_mul_right _ (by omega)
+        omega
+      rw [muc_vtimesqmodp_ge Q P j v hj (by omega), muc_vtimesqmodp Q P j 0 hj (by omega) hp hodd h2p hall]
+      simp
+    obtain ⟨y0, rest, rfl⟩ := List.exists_cons_of_ne_nil (by
+      intro h; rw [h] at hlen; exact hne (List.length_eq_zero_iff.mp hlen.symm) : ys ≠ [])
+    rw [multSum_cons, e0, ← multSum_cons]
+    exact h0
+
+/-- **`ModUpQtoP/PtoQ`, explicit rows**: row `j` is, lane by lane, `SubScalar(multSum(hpsY(residues x'), fidx))`. -/
+theorem modUp_row_eq (Q P : List Nat) (levelQ levelP : Nat) (hlQ : levelQ < Q.length) (hlP : levelP < P.length)
+    (hC : Chain (Q.take (levelQ + 1))) (polQ : Rows) (X : List Nat)
+    (hrows : ∀ i, i ≤ levelQ → row polQ i = X.map (· % Q.getD i 0)) (j : Nat) (hj : j ≤ levelP) :
+    row (modUp Q P levelQ levelP polQ) j = X.map fun x =>
+      subscalarvec_lane
+        (multSum (hpsY (Q.take (levelQ + 1)) (residues (Q.take (levelQ + 1))
+              ((x + prodN (Q.take (levelQ + 1)) / 2) % prodN (Q.take (levelQ + 1)))))
+          (fidx Q (hpsY (Q.take (levelQ + 1)) (residues (Q.take (levelQ + 1))
+              ((x + prodN (Q.take (levelQ + 1)) / 2) % prodN (Q.take (levelQ + 1))))))
+          (P.getD j 0) (GenMRedConstant (P.getD j 0))
+          (genModUpConstants (Q.take (levelQ + 1)) P).vtimesqmodp[j]!
+          (genModUpConstants (Q.take (levelQ + 1)) P).qoverqimodp[j]!)
+        (prodN (Q.take (levelQ + 1)) / 2 % P.getD j 0) 0 (P.getD j 0) := by
+  have hqlen : (Q.take (levelQ + 1)).length = levelQ + 1 := by rw [List.length_take]; omega
+  have hqmem : ∀ i, i ≤ levelQ → Q.getD i 0 ∈ Q.take (levelQ + 1) := by
+    intro i hi
+    rw [← take_getD Q (levelQ + 1) i (by omega)]
+    exact getD_mem _ i (by omega)
+  have hbuf := addScalarBig_rows Q levelQ (halfModulus Q levelQ) polQ X
+    (fun i hi => ⟨(hC.prime _ (hqmem i hi)).pos, by have := hC.small _ (hqmem i hi); unfold W; omega⟩) hrows
+  unfold modUp
+  simp only []
+  generalize hb : addScalarBig Q levelQ (halfModulus Q levelQ) polQ = buffQ at *
+  have hblen : buffQ.length = levelQ + 1 := by rw [hbuf]; simp
+  have hbW : ∀ r ∈ buffQ, ∀ x ∈ r, x < W := by
+    intro r hr x hx
+    rw [hbuf, List.mem_map] at hr
+    obtain ⟨i, hi, rfl⟩ := hr
+    rw [List.mem_map] at hx
+    obtain ⟨y, _, rfl⟩ := hx
+    have hi' : i ≤ levelQ := by have := List.mem_range.mp hi; omega
+    have h1 := (hC.prime _ (hqmem i hi')).pos
+    have h2 := hC.small _ (hqmem i hi')
+    have := Nat.mod_lt (y + halfModulus Q levelQ) h1
+    unfold W; omega
+  have hrw := modUpExact_rows Q P levelP buffQ (by omega) (by rw [hblen]; exact hC) hbW
+  rw [hblen] at hrw
+  have htr : transpose buffQ = X.map fun x => residues (Q.take (levelQ + 1))
+      ((x + prodN (Q.take (levelQ + 1)) / 2) % prodN (Q.take (levelQ + 1))) := by
+    rw [hbuf, transpose_map_rows (levelQ + 1) (by omega) X (fun i x => (x + halfModulus Q levelQ) % Q.getD i 0)]
+    apply List.map_congr_left
+    intro x _
+    rw [range_map_residues Q (levelQ + 1) _ (by omega), residues_mod_prodN]
+    rfl
+  unfold subScalarBig
+  rw [row_range_map _ _ j (by omega), hrw, row_range_map _ _ j (by omega), htr, List.map_map, List.map_map]
+  rfl
+
+/-- every limb `ModUpQtoP/PtoQ` writes is `< (k+2)·p_j`, whatever the IEEE index -/
+theorem modUp_row_lt (Q P : List Nat) (levelQ levelP : Nat) (hlQ : levelQ < Q.length) (hlP : levelP < P.length)
+    (hC : Chain (Q.take (levelQ + 1))) (k : Nat) (hk : (Q.take (levelQ + 1)).sum ≤ k * W)
+    (hT : Target P (k + 1)) (polQ : Rows) (X : List Nat)
+    (hrows : ∀ i, i ≤ levelQ → row polQ i = X.map (· % Q.getD i 0)) (j : Nat) (hj : j ≤ levelP) :
+    (row (modUp Q P levelQ levelP polQ) j).length = X.length
+    ∧ ∀ out ∈ row (modUp Q P levelQ levelP polQ) j, out < (k + 2) * P.getD j 0 := by
+  rw [modUp_row_eq Q P levelQ levelP hlQ hlP hC polQ X hrows j hj]
+  refine ⟨by rw [List.length_map], ?_⟩
+  intro out hout
+  rw [List.mem_map] at hout
+  obtain ⟨x, _, rfl⟩ := hout
+  have hqlen : (Q.take (levelQ + 1)).length = levelQ + 1 := by rw [List.length_take]; omega
+  have hne : Q.take (levelQ + 1) ≠ [] := by intro h; rw [h] at hqlen; simp at hqlen
+  have hmem := getD_mem P j (by omega)
+  have hsm := hT.small _ hmem
+  have hpp := hT.prime _ hmem
+  have hrl : ∀ z, (residues (Q.take (levelQ + 1)) z).length = (Q.take (levelQ + 1)).length :=
+    fun z => by unfold residues; simp
+  have h3 : (k + 1 + 2) * P.getD j 0 = (k + 2) * P.getD j 0 + P.getD j 0 := by
+    rw [Nat.add_mul, Nat.add_mul, Nat.add_mul]; omega
+  have hlt := multSum_lt (Q.take (levelQ + 1)) P hC hne j (by omega) hpp (hT.odd _ hmem) k hk (by omega)
+    _ (hpsY_length _ _ (hrl ((x + prodN (Q.take (levelQ + 1)) / 2) % prodN (Q.take (levelQ + 1)))))
+    (hpsY_lt _ _ (hrl _) (fun q hq => (hC.prime q hq).pos))
+    (fidx Q (hpsY (Q.take (levelQ + 1)) (residues (Q.take (levelQ + 1))
+      ((x + prodN (Q.take (levelQ + 1)) / 2) % prodN (Q.take (levelQ + 1))))))
+  have hp2 : P.getD j 0 ≤ (k + 2) * P.getD j 0 := Nat.le_mul_of_pos_left _ (by omega)
+  exact (subscalar_lazy _ _ _ _ hpp.pos (Nat.mod_lt _ hpp.pos) (by omega) hlt hp2).2
+
 end Lattigo.BasisExt
 
 #print axioms Lattigo.BasisExt.multSum_spec
@@ -1395,3 +1519,4 @@ end Lattigo.BasisExt
 #print axioms Lattigo.BasisExt.modDownQPtoP_limbs
 #print axioms Lattigo.BasisExt.centred_lane
 #print axioms Lattigo.BasisExt.modUpExact_exact
+#print axioms Lattigo.BasisExt.modUp_row_lt
